@@ -152,6 +152,9 @@ Definition pre (r : request) : bytes + prepared :=
                 | Hosts bases, Some h => if is_socket_addr_or_ip_addr h then None
                                          else match resolve_host bases h with Some (_, vb) => vb | None => None end
                 | _, _ => None end in
+      (* extract_headers: OrderedHeaders::from_headers reads every value with HeaderValue::to_str - tab and the visible ASCII range -
+         and a request with any other byte in any header value (an Authorization header included) is refused here, before the signature stage *)
+      if negb (forallb (fun h => forallb (fun c => (c =? 9) || ((32 <=? c) && (c <=? 126))) (snd h)) (rq_headers r)) then inl (b "InvalidRequest") else
       let hs := ordered (rq_headers r) in
       match (match hs_get_unique hs (b "content-type") with Some ct => Some (mime_boundary ct) | None => None end) with
       | Some None => inl (b "InvalidRequest")
